@@ -310,9 +310,52 @@ func runC05TinyWait(c *Cfg) {
 	})
 }
 
+// runC05ReusedFlow: one flow object cut short twice, by contexts of different kinds (cancel, then deadline — and the
+// other way round): each run reports ITS context's error.
+func runC05ReusedFlow(c *Cfg) {
+	r := c.Rep
+	var cases []*scen.Scenario
+	for kind := 0; kind < scen.NumScriptedKinds; kind++ {
+		for _, kinds := range [][2]string{{"cancel", "deadline"}, {"deadline", "cancel"}, {"cancel-cause", "deadline"}} {
+			for depth := 0; depth <= 1; depth++ {
+				for _, at := range []int{2, 0} { // inside the first node's post (the flow notices between the nodes) / inside its prep
+					mk := func(p string) scen.NodeSpec {
+						return scen.NodeSpec{Kind: kind, N: 1, Visits: []scen.Visit{{FirstOK: 1, Post: p}, {FirstOK: 1, Post: p}, {FirstOK: 1, Post: p}}}
+					}
+					nodes := []scen.NodeSpec{mk("go"), mk("fin"),
+						{Kind: scen.KFlow, N: 1, Flow: &scen.FlowSpec{Start: 0, Conns: []scen.Conn{{From: 0, Action: "go", To: 1}}}}}
+					root := 2
+					if depth == 1 {
+						nodes = append(nodes, scen.NodeSpec{Kind: scen.KFlow, N: 1, Flow: &scen.FlowSpec{Start: 2}})
+						root = 3
+					}
+					cases = append(cases, &scen.Scenario{Nodes: nodes, Root: root, Runs: 2, UseFlowRun: at == 0, Inject: scen.Inject{Kind: kinds[0], Alt: kinds[1], At: at}})
+				}
+			}
+		}
+	}
+	parallel(c, len(cases), func(i int) {
+		sc := cases[i]
+		base := sc.Clone()
+		base.Inject = scen.Inject{}
+		ref := keysOf(scen.NewExec(base).RunOnce().Events)
+		x := scen.NewExec(sc)
+		for run := 0; run < 2; run++ {
+			o := x.RunOnce()
+			r.EvalN(1)
+			r.Count("inject.reused-flow", 1)
+			for _, f := range judgeC05(c, sc, ref, &o, run == 0) {
+				r.Violate("C05", "C05:"+f.Key, fmt.Sprintf("run %d of the same flow object (context kind %s): %s", run, []string{sc.Inject.Kind, sc.Inject.Alt}[run], f.Detail), ScenCase{"reused-flow", sc})
+			}
+		}
+		r.Nontrivial("rf:" + scenSig(sc))
+	})
+}
+
 func runC05(c *Cfg) {
 	r := c.Rep
 	defer runC05TripAtCheck(c)
+	defer runC05ReusedFlow(c)
 	defer runC05TinyWait(c)
 	defer runC05DeadlineInWait(c)
 	defer runC05FlowRetries(c)
@@ -397,6 +440,21 @@ func replayC05(c *Cfg, spec json.RawMessage) {
 	var cs ScenCase
 	if err := json.Unmarshal(spec, &cs); err != nil || cs.Scenario == nil {
 		fmt.Println("cannot parse case:", err)
+		return
+	}
+	if cs.Family == "reused-flow" {
+		base := cs.Scenario.Clone()
+		base.Inject = scen.Inject{}
+		ref := keysOf(scen.NewExec(base).RunOnce().Events)
+		x := scen.NewExec(cs.Scenario)
+		for run := 0; run < 2; run++ {
+			o := x.RunOnce()
+			fmt.Printf("run %d: errNil=%v err=%q matches=%q ctx=%q\n", run, o.ErrNil, o.ErrText, o.ErrID, o.CtxErr)
+			for _, f := range judgeC05(c, cs.Scenario, ref, &o, false) {
+				fmt.Printf(" * finding %s: %s\n", f.Key, f.Detail)
+				c.Rep.Violate("C05", "C05:"+f.Key, f.Detail, cs)
+			}
+		}
 		return
 	}
 	if cs.Scenario.Inject.Kind == "deadline-in-wait" {
